@@ -28,9 +28,26 @@ pub broadcast proof fn axiom_range_usize_hi(r: core::ops::Range<usize>)
 {
 }
 
+/// `..n` is `0..n`.
+#[verifier::external_body]
+pub broadcast proof fn axiom_range_to_usize_lo(r: core::ops::RangeTo<usize>)
+    ensures
+        #[trigger] range_lo(r) == 0,
+{
+}
+
+#[verifier::external_body]
+pub broadcast proof fn axiom_range_to_usize_hi(r: core::ops::RangeTo<usize>)
+    ensures
+        #[trigger] range_hi(r) == r.end as int,
+{
+}
+
 pub broadcast group axiom_range_usize {
     axiom_range_usize_lo,
     axiom_range_usize_hi,
+    axiom_range_to_usize_lo,
+    axiom_range_to_usize_hi,
 }
 
 #[verifier::external_type_specification]
